@@ -6,6 +6,8 @@ use crate::kit::runner::{Ctx, Sub};
 pub mod c02;
 pub mod c03;
 pub mod c04;
+pub mod c05;
+pub mod c06;
 pub mod c16;
 
 pub struct PropDef {
@@ -21,6 +23,8 @@ pub fn get(id: &str) -> Option<PropDef> {
         "C02" => Some(c02::def()),
         "C03" => Some(c03::def()),
         "C04" => Some(c04::def()),
+        "C05" => Some(c05::def()),
+        "C06" => Some(c06::def()),
         "C16" => Some(c16::def()),
         _ => None,
     }
